@@ -1,17 +1,27 @@
 import RdsProofs.Reach
 import RdsProofs.C03Proofs
+import RdsProofs.AuditC03C20
 /-!
 # Property C03 — blocks flagged above the accepted error level never influence anything
 
 `C03_process`: for every state, every group and every replacement of the data bits of unused blocks
 (`sameUsed`, RdsSpec/Statements.lean — the property's list of accepted levels) the successor state AND the event list
 are identical; since the successor states are equal, so is all later behaviour (`C03_trace` lifts it to op lists).
-`C03_uncorrectable`: with thresholds clamped to 'large' a block with any code ≥ 3 is never used, block B included.
+`C03_process_typed`, `C03_process'`, `C03_trace'`, `C03_typed` (RdsProofs/AuditC03C20.lean): the type-aware reading — an errored
+block B is used only by the text handler of the group type it carries, so two groups whose block B is unused in that sense
+agree as soon as block A agrees where used (B, C, D and their error codes may all differ); `ac3_sameUsed_onesided_false` shows the
+relation must be two-sided. `C03_uncorrectable`: with thresholds clamped to 'large' a block with any code ≥ 3 is never used, block B included.
 -/
 -- THEOREM: RDS.C03_process
 -- THEOREM: RDS.C03_trace
 -- THEOREM: RDS.C03_uncorrectable
 -- THEOREM: RDS.C03
+-- THEOREM: RDS.C03_process_typed
+-- THEOREM: RDS.C03_process'
+-- THEOREM: RDS.C03_trace'
+-- THEOREM: RDS.C03_typed
+-- THEOREM: RDS.ac3_process_unusedB'
+-- THEOREM: RDS.ac3_sameUsed_onesided_false
 namespace RDS
 
 /-- C03 on reachable states: thresholds are clamped there (`WF.setOk`), so "uncorrectable is always ignored" holds
